@@ -9,12 +9,7 @@ HERE = os.path.dirname(os.path.abspath(__file__))
 sys.path.insert(0, os.path.join(HERE, "rules"))
 
 ALL = ["C%02d" % i for i in range(1, 20)]
-NA = {
-    "C04": "Wire compatibility Rust type -> schemars schema -> typify type quantifies over values and over the shapes schemars "
-           "emits; it is a relation between serde's run-time format, schemars' output and typify's recognisers with no necessary "
-           "structural condition of its own that a static rule over typify's source can decide (the one structural part, both "
-           "ingestion routes attaching defaults alike, is decided under C06/C16 and not claimed as C04).",
-}
+NA = {}  # C04 was not applicable in the design; its structural clauses are claimed since round 3 (DESIGN.md 12.9)
 
 checks = []
 na = []
